@@ -11,10 +11,17 @@ from syne_tune.backend.trial_status import Status
 
 def h_loop(sym, W=2, T=2, R=2, K=1, J=0, max_fail=0, tuner_max_failures=1, crit="finished", crit_n=None,
            asynchronous=True, without_delay=True, wait=False, props=("C01", "C02", "C12"), Z=1, P=10,
-           decisions=("CONTINUE", "PAUSE", "STOP"), checkpointing=True, max_pause=1, inject_max=0, stop_lag=0, backend_fault_max=0):
+           decisions=("CONTINUE", "PAUSE", "STOP"), checkpointing=True, max_pause=1, inject_max=0, stop_lag=0, backend_fault_max=0,
+           exit_in_busy=False):
     from syne_tune import StoppingCriterion
     mon = Monitor(sym, W, props)
-    be = ScriptBackend(sym, mon, R=R, K=K, J=J, max_fail=max_fail, Z=Z, P=P, checkpointing=checkpointing, stop_lag=stop_lag)
+    value_fn = None
+    if crit == "min_metric":
+        # metric threshold criterion: every reported value is one of {above the threshold, below it, NaN (a diverged run)}
+        def value_fn(tid, run, r):
+            return (0.5, 0.04, float("nan"))[sym.choice("v_%d_%d_%d" % (tid, run, r), 3)]
+    be = ScriptBackend(sym, mon, R=R, K=K, J=J, max_fail=max_fail, Z=Z, P=P, checkpointing=checkpointing, stop_lag=stop_lag, value_fn=value_fn)
+    be.exit_in_busy = exit_in_busy
     sch = NDS(sym, mon, T, decisions=decisions, max_pause=max_pause)
     if inject_max:
         sch.inject_at = 1 + sym.choice("inject_at", inject_max)
@@ -28,9 +35,12 @@ def h_loop(sym, W=2, T=2, R=2, K=1, J=0, max_fail=0, tuner_max_failures=1, crit=
                 break
     else:
         n = crit_n
-    kwarg = dict(started="max_num_trials_started", completed="max_num_trials_completed",
-                 finished="max_num_trials_finished", evaluations="max_num_evaluations")[crit]
-    criterion = StoppingCriterion(**{kwarg: n})
+    if crit == "min_metric":
+        criterion = StoppingCriterion(min_metric_value={"m": 0.05}, max_num_trials_started=T + 1)
+    else:
+        kwarg = dict(started="max_num_trials_started", completed="max_num_trials_completed",
+                     finished="max_num_trials_finished", evaluations="max_num_evaluations")[crit]
+        criterion = StoppingCriterion(**{kwarg: n})
     cb = LoopCallback(be, mon, crit=(crit, n), max_failures=tuner_max_failures, wait=wait)
     tuner = make_tuner(sym, sch, be, [cb], W, criterion, max_failures=tuner_max_failures,
                        asynchronous_scheduling=asynchronous, start_jobs_without_delay=without_delay,
@@ -60,6 +70,14 @@ def h_loop(sym, W=2, T=2, R=2, K=1, J=0, max_fail=0, tuner_max_failures=1, crit=
         sym.goal("end")
         return
     # ------------------------------------------------------------------ after run() returned
+    if "C01" in mon.props and err is None and not injected:
+        # the scheduler is told about every end of a run that happens before tuning stops: a job that ended by itself and
+        # was followed by at least one more poll of the loop must have been reported to the scheduler
+        for t, f in sorted(be.exit_fetch.items()):
+            if be.nfetch > f + 1:
+                sym.check(mon.state.get(t) in ("completed", "failed", "stopped", "paused"), "C01.end-not-notified",
+                          "the job of trial %d ended by itself before poll %d, the loop polled until %d, but the scheduler was never told (monitor state: %s): the trial is not tracked by the loop" % (
+                              t, f + 1, be.nfetch, mon.state.get(t)))
     if "C12" in mon.props:
         left = be.in_progress()
         sym.check(not left, "C12.left-running", "trials %s still occupy a worker after run() returned" % left)
@@ -127,6 +145,13 @@ def obligations(tier, props=("C01", "C02", "C12"), prefix="C01", J=0, fail=1):
                       split=((("k_p2_t0", (0, 1, 2)[:K + 1]), ("end_p2_t0", (0, 1, 2)), ("dec_3", (0, 1, 2)), ("dec_4", (0, 1, 2))) if wd else
                              (("k_p2_t0", (0, 1)), ("k_p2_t1", (0, 1)), ("stoplag_0", (0, 1)), ("stoplag_1", (0, 1)))),
                       budget_s=2400, may_be_incomplete=not quick))
+    # start_jobs_without_delay=False and a job that ends right between the poll and busy_trial_ids(): the backend then reports
+    # fewer busy workers than the loop tracks
+    p = dict(W=2, T=3, R=1, K=1, J=0, max_fail=0, asynchronous=True, without_delay=False, props=list(props), crit="finished", crit_n=3, P=8, Z=0,
+             decisions=["CONTINUE"], exit_in_busy=True)
+    obs.append(Ob("%s.a[W=2,T=3,R=1,K=1,ask-backend,exit-between-poll-and-scheduling]" % prefix, "props.c01:h_loop", p,
+                  bounds=dict(W=2, T=3, R=1, K=1, polls="<=8", criterion="max_num_trials_finished=3", decisions="CONTINUE only"),
+                  goals=("end", "exit-between-poll-and-scheduling"), split=(("k_p2_t0", (0, 1)), ("k_p2_t1", (0, 1)), ("end_p2_t0", (0, 1)), ("end_p2_t1", (0, 1))), budget_s=1200))
     return obs
 
 
